@@ -251,3 +251,25 @@ contract('C06/LoggingMonitor.__reduce__', ['C06', 'C20'], M + '::LoggingMonitor.
     lambda h: _pickle_state(h, M + '::LoggingMonitor', 5))
 contract('C06/VerboseLoggingMonitor.__reduce__', ['C06', 'C20'], M + '::VerboseLoggingMonitor.__reduce__', native=False)(
     lambda h: _pickle_state(h, M + '::VerboseLoggingMonitor', 7))
+
+
+@contract('C20/Monitor.slice', ['C20'], MON + '.__getitem__', native=False)
+def monitor_slice(h):
+    """m[a:b] for any history length and any integer bounds (negative / out of range as python slices them): a NEW monitor
+    holding exactly the records a'..b'-1 in order, with the same k and label, sharing no list with m; m is unchanged"""
+    if not h.is_sym():
+        h.unsupported('symbolic only (slices of real monitors incl. steps and index lists: rtc/c20)')
+    k = _k(h)
+    m, n, xs, ys, ids = _scalar_monitor(h, 'm', k)
+    form = h.choice('slice', ['a:b', 'a:', ':b'])
+    a, b = h.int('a'), h.int('b')
+    lo = h.ev('0', ) if form == ':b' else h.ev('min(max(a + n, 0), n) if a < 0 else min(a, n)', a=a, n=n)
+    hi = n if form == 'a:' else h.ev('min(max(b + n, 0), n) if b < 0 else min(b, n)', b=b, n=n)
+    r = h.ev('m[%s]' % form, m=m, a=a, b=b)
+    e = dict(m=m, r=r, lo=lo, hi=hi, n=n, k=k, xs=h.snapshot(xs), ys=h.snapshot(ys), ids=h.snapshot(ids))
+    h.check('a-new-monitor-of-the-sliced-length', 'not same(r, m) and len(r) == max(0, hi - lo)', **e)
+    h.check('holds-exactly-the-sliced-records-in-order',
+            'forall(0, max(0, hi - lo), lambda q: r._x[q] == xs[lo + q] and r._y[q] == ys[lo + q] and r._id[q] == ids[lo + q])', **e)
+    h.check('same-multiplier-and-label', '(r.k is None if k is None else r.k == k) and r.label == m.label', **e)
+    h.check('shares-no-list-with-the-original', 'not same(r._x, m._x) and not same(r._y, m._y) and not same(r._id, m._id)', **e)
+    h.check('original-unchanged', 'len(m._x) == n and len(m._y) == n and forall(0, n, lambda q: m._x[q] == xs[q] and m._y[q] == ys[q] and m._id[q] == ids[q])', **e)
